@@ -31,6 +31,10 @@ func (fg *FuncGen) instr(in ssa.Instruction) {
 			fg.setFam("B_len", "(store "+fg.famIn(fg.st, "B_len")+" "+ref+" 0)")
 			fg.setFam("B_runes", "(store "+fg.famIn(fg.st, "B_runes")+" "+ref+" 0)")
 			fg.setFam("B_ok", "(store "+fg.famIn(fg.st, "B_ok")+" "+ref+" true)")
+			g.Family("B_okprev", "(Array Int Bool)")
+			g.Family("B_last", "(Array Int Int)")
+			fg.setFam("B_okprev", "(store "+fg.famIn(fg.st, "B_okprev")+" "+ref+" true)")
+			fg.setFam("B_last", "(store "+fg.famIn(fg.st, "B_last")+" "+ref+" (- 1))")
 		}
 		if nt, ok := elem.(*types.Named); ok && v.Heap {
 			fg.allocSiteAsserts(v, nt.Obj().Name())
